@@ -29,12 +29,15 @@ def gen_scenarios(rng, n, spin):
             lam = rng.choice([1, 2, 3, 0.5])
             b, brec, bkind = cs.choose_bounds(rng, P, spin)
             steps.append({"mode": "cmp", "P": P, "rel": rel, "lam": lam, "lt": lt, "bounds": b, "bounds_rec": brec, "bkind": bkind})
+            if rng.random() < 0.1:
+                # the same constraint once more, with another weight: each call adds its own penalty
+                steps.append(dict(steps[-1], lam=rng.choice([l_ for l_ in (1, 2, 3, 0.5) if l_ != lam])))
         objective = None
         if rng.random() < 0.4:
             objective = cs.gen_poly(rng, labels, maxdeg=2, maxterms=2, coefs=(-2, 1, 3))
         scens.append({"labels": labels, "steps": steps, "objective": objective, "arg_form": rng.choice(["dict", "dict", "model", "pc"]),
                       "fork": rng.choice([None, None, None, "copy", "add0", "mul1", "ctor", "neg"]),
-                      "rebind": rng.choice([None, None, "copy", "add0", "mul1", "ctor", "neg", "refresh"])})
+                      "rebind": rng.choice([None, None, "copy", "add0", "mul1", "ctor", "neg", "refresh", "imul1"])})
     return scens
 
 
